@@ -372,7 +372,69 @@ def forced_finding_specs():
                weights={1: F(1), 2: F(0)}, features=["forced_fixed_point_zero_solution"], recursive=True)
     return dead, unreach, size1, fp0
 
+def forced_arity3_spec(rng):
+    """a lower-component nonterminal Y of arity 3 (all axes of size 2) whose rules leave some external nodes attached to
+    no edge, in various positions, so that the physical axis order of Y's value is a non-trivial permutation (also a
+    3-cycle) of its virtual order; the gradient flows through Y:  S -> Y(a,b,c) m(a,b,c) [| Y(a,b,c) m(b,c,a)],
+    Y(a,b,c) -> h(x,y) | f(x) | h(x,y) f(z) ...   labels: 0 S, 1 Y, 2 m/3, 3 h/2, 4 f/1"""
+    W = [Fraction(1, 4), Fraction(1, 2), Fraction(1), Fraction(2), Fraction(3)]
+    elabels = [dict(term=False, type=[]), dict(term=False, type=[0, 0, 0]),
+               dict(term=True, type=[0, 0, 0]), dict(term=True, type=[0, 0]), dict(term=True, type=[0])]
+    import itertools
+    yr = []
+    if rng.random() < 0.6:
+        # the attached external nodes are a proper prefix of (a, b, c): the unattached ones follow a connected one,
+        # which makes the physical axis order of Y's value a cyclic rotation of the virtual order
+        k = rng.choice(["f0", "h01", "h10", "h01f", "hh01"])
+        edges = {"f0": [(4, [0])], "h01": [(3, [0, 1])], "h10": [(3, [1, 0])],
+                 "h01f": [(3, [0, 1]), (4, [rng.choice([0, 1])])], "hh01": [(3, [0, 1]), (3, [1, 0])]}[k]
+        yr.append(dict(lhs=1, nodes=[0, 0, 0], edges=edges, ext=[0, 1, 2]))
+    for _ in range(rng.choice([1, 1, 2]) if not yr else 0):
+        k = rng.choice(["h", "f", "hf", "hh"])
+        if k == "h": edges = [(3, list(rng.choice(list(itertools.permutations(range(3), 2)))))]
+        elif k == "f": edges = [(4, [rng.randrange(3)])]
+        elif k == "hf":
+            att = list(rng.choice(list(itertools.permutations(range(3), 2)))); edges = [(3, att), (4, [rng.choice(att)])]
+        else:
+            edges = [(3, list(rng.choice(list(itertools.permutations(range(3), 2))))), (3, list(rng.choice(list(itertools.permutations(range(3), 2)))))]
+        yr.append(dict(lhs=1, nodes=[0, 0, 0], edges=edges, ext=[0, 1, 2]))
+    srules = [dict(lhs=0, nodes=[0, 0, 0], edges=[(1, [0, 1, 2]), (2, list(rng.choice(list(itertools.permutations(range(3))))))], ext=[])]
+    if rng.random() < 0.3: srules.append(dict(lhs=0, nodes=[0, 0, 0], edges=[(1, list(rng.choice(list(itertools.permutations(range(3)))))), (2, [0, 1, 2])], ext=[]))
+    distinct = lambda shape: gen.nested(shape, lambda: rng.choice(W))
+    weights = {2: distinct([2, 2, 2]), 3: distinct([2, 2]), 4: distinct([2])}
+    return dict(nlabels=[2], elabels=elabels, start=0, rules=srules + yr, weights=weights,
+                features=["forced_arity3_unattached_ext"], recursive=False)
+
+def forced_diag_recursion_spec(rng, under_start):
+    """a recursive component whose value is patterned (diagonal): X(a,a) -> f(a) | h(a,b) X(b,b) (duplicated external node);
+    either X is the start symbol (Real: any cotangent, the off-diagonal derivative is 0) or T -> X(a,b) m(a,b).
+    labels: 0 start, (1 X), f/1, h/2, m/2"""
+    W = [Fraction(1, 4), Fraction(1, 2), Fraction(1), Fraction(1), Fraction(2)]
+    fw = gen.nested([2], lambda: rng.choice(W)); hw = gen.nested([2, 2], lambda: rng.choice(W[:4]))
+    if under_start:
+        elabels = [dict(term=False, type=[]), dict(term=False, type=[0, 0]), dict(term=True, type=[0]), dict(term=True, type=[0, 0]), dict(term=True, type=[0, 0])]
+        X = 1
+        rules = [dict(lhs=0, nodes=[0, 0], edges=[(1, [0, 1]), (4, [0, 1])], ext=[])]
+        weights = {2: fw, 3: hw, 4: gen.nested([2, 2], lambda: rng.choice(W))}
+    else:
+        elabels = [dict(term=False, type=[0, 0]), dict(term=True, type=[0]), dict(term=True, type=[0, 0])]
+        X = 0; rules = []; weights = {1: fw, 2: hw}
+    f, h = (2, 3) if under_start else (1, 2)
+    rules += [dict(lhs=X, nodes=[0], edges=[(f, [0])], ext=[0, 0]),
+              dict(lhs=X, nodes=[0, 0], edges=[(h, [0, 1]), (X, [1, 1])], ext=[0, 0])]
+    if rng.random() < 0.4:      # a non-linear variant
+        rules.append(dict(lhs=X, nodes=[0, 0], edges=[(h, [0, 1]), (X, [1, 1]), (X, [1, 1])], ext=[0, 0]))
+    return dict(nlabels=[2], elabels=elabels, start=0, rules=rules, weights=weights,
+                features=["dup_ext", "forced_diagonal_recursion"], recursive=True)
+
 def gen_spec(rng, i, recursive):
+    if not recursive and i % 7 == 3:
+        spec = forced_arity3_spec(rng)
+        if shared_factor(spec): spec["features"] = sorted(set(spec["features"]) | {"shared_factor"})
+        return spec, Fraction(1), False
+    if recursive and i % 3 == 2 and (i // 3) % 2 == 0:
+        spec = forced_diag_recursion_spec(rng, under_start=(i // 6) % 3 != 0)
+        return spec, rng.choice([Fraction(1, 4), Fraction(1, 8)]), False
     if recursive and i % 3 == 1:
         kind = (i // 3) % 4
         spec = forced_recursive_spec(rng, kind)
@@ -450,7 +512,7 @@ def run(tier, seed):
             if srn == "log" and keep_zero: continue
             sr = SR(srn, "float64", scale)
             method = METHODS[(i + ci) % 3] if i != -2 else "fixed-point"
-            if any(f in spec["features"] for f in ("forced_mutual_recursion", "forced_nonlinear_matrix_recursion", "forced_dead_rule_first")):
+            if any(f in spec["features"] for f in ("forced_mutual_recursion", "forced_nonlinear_matrix_recursion", "forced_dead_rule_first", "forced_diagonal_recursion")):
                 method = METHODS[(i // 3 + ci) % 2]      # non-linear recursion: method='linear' would only raise its ValueError
             plain = (i + ci) % 3 == 0
             cot = [Fraction(1)] * n_c if plain else [rng.choice(COT_GRID) for _ in range(n_c)]
